@@ -170,6 +170,9 @@ func ruleSanitiserSites(r *Run) {
 		rel, recv, fn, desc string
 	}{{enginePkg, "*LabelSet", "SetAttrs", "record attribute"}, {enginePkg, "", "extractAll", "JSON"}} {
 		fn := resolveFn(p, s.rel, s.recv, s.fn)
+		if fn == nil && s.recv == "" {
+			fn = jsonExtractRole(p, s.fn)
+		}
 		o := r.Ob("PV-API", "logqlengine."+s.fn+" keys", "every "+s.desc+" key becomes a label only through KeyToLabel, unconditionally")
 		if fn == nil || len(fn.AnonFuncs) == 0 {
 			o.Fail("-", "function/closure not found")
